@@ -28,6 +28,7 @@ func runC02(c *Ctx) {
 	R := c.R
 	R.Rule("height-refresh", "a node whose child field was stored has its height recomputed (calcHeight, after the last child store) before it flows upwards", 8)
 	R.Rule("rebalance-on-return", "a function that stored to a child field of the subtree root it returns, returns rebalance(root) or a rotation of it", 3)
+	R.Rule("fresh-node-height", "every node allocated in the package starts with the cached height of its shape: the leaf height (empty+1) without children, calcHeight after the child stores otherwise", 2)
 	R.Rule("rotation-shape", "single rotations: the returned tree is (L n RL) r RR for a left rotation, LL l (LR n R) for a right rotation, in terms of the entry state", 2)
 	R.Rule("height-convention", "empty subtree = leaf height - 1; one child: 1 + its height; two children: 1 + max", 3)
 	R.Rule("rotation-table", "balance leans iff heights differ by > 1; rebalance: heavy side + strict opposite lean of the heavy child -> double rotation, else single; balanced -> unchanged", 5)
@@ -652,6 +653,118 @@ func runC02(c *Ctx) {
 		}
 		R.Decide(found != "", "rotation-table", "avl.(*node)", "rotation-"+want, "", "rotation of kind "+want+": "+found, "no function implements the "+want+" rotation structurally")
 	}
+	// ---- fresh-node-height: a node created in the package starts with the height its shape has
+	{
+		leaf := int64(-999)
+		if l := cNil["avl.(*node).leftHeight"]; l != nil {
+			if v, okc := l.IntVal(); okc {
+				leaf = v + 1
+			}
+		}
+		for _, fi := range c.P.FuncsOfPkg("avl") {
+			fp := c.An.PathsOf(fi.SSA)
+			if fp.Unproven != "" {
+				continue
+			}
+			ok, why := true, ""
+			nAlloc := 0
+			seen := map[string]bool{}
+			for _, p := range fp.Paths {
+				type info struct {
+					copyOf      bool
+					children    int
+					lastChild   int
+					heightStore *Event
+					heightIdx   int
+				}
+				nodes := map[string]*info{}
+				var order []string
+				get := func(t *Term) *info {
+					k := t.Key()
+					if nodes[k] == nil {
+						nodes[k] = &info{lastChild: -1, heightIdx: -1}
+						order = append(order, k)
+					}
+					return nodes[k]
+				}
+				for i := range p.Events {
+					e := &p.Events[i]
+					if e.Kind != "store" {
+						continue
+					}
+					if e.Addr.Op == "alloc" && e.Val != nil && isNodeStructType(a, e.Val.Typ) {
+						in := get(e.Addr)
+						if e.Val.Op == "load" {
+							in.copyOf = true
+						} else if e.Val.Op == "struct" {
+							st := e.Val.Typ.Underlying().(*types.Struct)
+							for k := 0; k < st.NumFields() && k < len(e.Val.Args); k++ {
+								f := st.Field(k)
+								v := e.Val.Args[k]
+								if (sameField(f, a.nLeft) || sameField(f, a.nRight)) && !v.IsNil() && !isZeroish(v) {
+									in.children++
+									in.lastChild = i
+								}
+								if sameField(f, a.nHeight) && !isZeroish(v) {
+									in.heightStore, in.heightIdx = e, i
+								}
+							}
+						}
+						continue
+					}
+					if e.Addr.Op == "faddr" && e.Addr.Args[0].Op == "alloc" && isNodePtrType(a, e.Addr.Args[0].Typ) {
+						in := get(e.Addr.Args[0])
+						switch {
+						case sameField(e.Addr.Obj, a.nLeft), sameField(e.Addr.Obj, a.nRight):
+							if !e.Val.IsNil() && !isZeroish(e.Val) {
+								in.children++
+								in.lastChild = i
+							}
+						case sameField(e.Addr.Obj, a.nHeight):
+							in.heightStore, in.heightIdx = e, i
+						}
+					}
+				}
+				for _, k := range order {
+					in := nodes[k]
+					if in.copyOf {
+						continue // a copy of an existing node: height-refresh covers its child stores
+					}
+					if !seen[k] {
+						seen[k] = true
+						nAlloc++
+					}
+					isCalc := in.heightStore != nil && in.heightStore.Val != nil && in.heightStore.Val.Op == "call" && strings.HasSuffix(in.heightStore.Val.Sym, "calcHeight")
+					switch {
+					case in.children == 0:
+						var hv int64
+						if in.heightStore != nil && !isCalc {
+							v, okc := in.heightStore.Val.IntVal()
+							if !okc {
+								ok, why = false, "a new leaf's height is set to "+in.heightStore.Val.String()+", which is not known to be the leaf height"
+								continue
+							}
+							hv = v
+						}
+						if !isCalc && hv != leaf {
+							ok, why = false, fmt.Sprintf("a new leaf starts with height %d, but calcHeight gives a leaf %d (empty subtree + 1): its parent's balance is computed from a wrong height", hv, leaf)
+						}
+					default:
+						if !isCalc || in.heightIdx < in.lastChild {
+							ok, why = false, "a new node is given children but its cached height is not computed from them (calcHeight after the child stores): every such node claims to be a leaf"
+						}
+					}
+				}
+			}
+			if nAlloc == 0 {
+				continue
+			}
+			o := R.Decide(ok, "fresh-node-height", fi.Name, "allocs", c.pos(fi), fmt.Sprintf("%d node allocation(s) start with the height of their shape", nAlloc), why)
+			if !ok {
+				o.Breaks = "stale cached heights: rotations are skipped or misapplied in trees built through this path"
+			}
+		}
+	}
 	// ---- rotation-shape: a single rotation promotes the heavy child and re-hangs the three subtrees in order
 	for _, fi := range nodeFuncs {
 		k := kind[fi]
@@ -740,4 +853,20 @@ func nodeLabel(t *Term) string {
 		s = s[:40]
 	}
 	return strings.ReplaceAll(s, " ", "")
+}
+
+func isNodeStructType(a *avlAnchors, t types.Type) bool {
+	if t == nil {
+		return false
+	}
+	st, ok := t.Underlying().(*types.Struct)
+	if !ok {
+		return false
+	}
+	for i := 0; i < st.NumFields(); i++ {
+		if sameField(st.Field(i), a.nLeft) {
+			return true
+		}
+	}
+	return false
 }
